@@ -77,6 +77,41 @@ def run(ctx):
                                "CRC16(data).digest() differs from CRC-16/KERMIT (bit-serial catalogue definition)")
     _detect(ctx)
     _detect_rx(ctx)
+    _detect_hdr_rx(ctx)
+
+
+def _detect_hdr_rx(ctx):
+    """Every 1- and 2-bit corruption of the 40 header bits, replayed on the real receiver in two situations: on a
+    fresh receiver, and directly behind the intact frame itself (a decoder that remembers anything about the header it
+    validated last must not let a damaged repetition through).  The damaged frame is never acknowledged nor delivered."""
+    import itertools
+    import rxworld
+    import streams
+    r = ctx.rng
+    frames = [streams.command_frame(r, r.randrange(4)), streams.ack(r.randrange(4)),
+              streams.raw_frame(0x80 | (r.randrange(4) << 2), bytes(r.getrandbits(8) for _ in range(9)))]
+    pats = [(a,) for a in range(40)] + list(itertools.combinations(range(40), 2))
+    if not ctx.thorough():
+        pats = [(a,) for a in range(40)] + r.sample(pats[40:], 160)
+    for fi, good in enumerate(frames):
+        is_ack = bool(good[5] & 1)
+        alone, _f, _r = rxworld.session([good])
+        base = [x[:1] for x in alone[0].split(",")] if alone[0] != "." else []
+        for pat in pats:
+            b = bytearray(good)
+            for bit in pat:
+                b[2 + bit // 8] ^= 1 << (bit % 8)
+            for label, chunks in (("fresh", [bytes(b)]), ("behind-intact", [good + bytes(b)]), ("behind-intact-2reads", [good, bytes(b)])):
+                outs, final, raised = rxworld.session(chunks)
+                log = [x[:1] for o in outs if o != "." for x in o.split(",")]
+                want = [] if label == "fresh" else base
+                ctx.case(("hdr-rx", fi, pat, label), sample=dict(frame=hx(good)[:28], bits=list(pat), situation=label))
+                ctx.count("hdr-rx-" + label)
+                # the damaged copy may not add an acknowledgement or a delivery (an ACK frame adds nothing either way)
+                if log != want and not (is_ack and log == want):
+                    ctx.counterexample("header-corruption-accepted",
+                                       dict(frame=hx(good), damaged=hx(bytes(b)), bits=list(pat), situation=label),
+                                       want, log, "a frame whose header has %d corrupted bit(s) is accepted by the receiver" % len(pat))
 
 
 def _detect_rx(ctx):
